@@ -415,6 +415,29 @@ def body(prop, args, seed, t0):
                 tie_broken("translated_check_t14", bad14, "translator disagreement (shot bookkeeping)")
     # --- T14 end
 
+    # --- T15: the translated measurement-statistics definitions (`_convert_bitstrings_to_vector`, `check_parity_of_vector`,
+    # `get_expectation_value_from_frequencies`, `Measurements.get_expectation_values`; numpy through the
+    # prelude `OQ.Py.np…`, itself compared with numpy by harness/prelude_check.py) are run at Rat through the generated glue
+    # OQ/Generated/TranslatedDriverT15.lean and compared with the Python functions / the real method on real objects
+    # (harness/translated_check_t15.py)
+    if prop in _tables._specs() and driver.available():
+        from harness import translated_check_t15 as _tc15
+        if any(p == prop for p, _s in _tc15.t15_specs()) and (build_ok or common.lake_build(["oqdriver"])[0]):
+            try:
+                n15, bad15, untr15 = _tc15.run(seed, only=prop)
+            except Timeout:
+                raise
+            except Exception as e:  # noqa: BLE001
+                if not broken:
+                    tie_broken("self-check crashed (T15)", [f"{type(e).__name__}: {str(e)[:300]}"], "translator self-check crashed")
+                n15, bad15, untr15 = 0, [], [f"self-check could not run: {type(e).__name__}: {str(e)[:120]}"]
+            tie["translated_t15_vs_python_function"] = n15
+            tie["translated_t15_agreeing_only_up_to_float_rounding"] = len(_tc15.ROUNDED)
+            tie["untranslatable_now"] = list(tie.get("untranslatable_now", [])) + untr15
+            if bad15:
+                tie_broken("translated_check_t15", bad15, "translator disagreement (measurement statistics)")
+    # --- T15 end
+
     # --- T7: the translated CLASSES PauliTerm / PauliSum (harness/translate_t7.py -> OQ/Generated/TranslatedC03.lean, tied to the model of
     # C03 by Props/C03_TranslatedPauli.lean) are run at Cyc8 through the generated glue OQ/Generated/TranslatedDriverT7.lean (tag "TRT7")
     # and compared with the real methods on real objects (harness/translated_check_t7.py); the prelude is compared with CPython for C03
